@@ -327,10 +327,77 @@ def handle_path_rule(repo, res):
                 res.check("W3-SKIP", "%s [%s]" % (qn, label), bad is None, cls.mod, fn, "%s [%s]: %s" % (qn, label, bad), "an existing file is overwritten although the policy (or the user) said skip, or a file that may be written is skipped, or the wrong path is tested", qualname=qn)
 
 
+def public_write_rule(repo, res, writers, public):
+    """W3 on every public write method of both writers, by abstract evaluation: (file name given / defaulted) x (file
+    exists or not) x (policy, user's reply) — the file is written exactly when the policy does not say skip for an
+    existing file, and then under the effective name.  The builders that fill the document are stubbed (their content is
+    not the subject here); `_handle_file_path` and whatever policy code the method has are evaluated."""
+    from ..strdom import NONE, ClassRef, Ctor, Ev, Lenient, Obj, PyFunc, Str, Sym, Undecided, _Raise, same, show
+
+    pol = repo.cls(WI, "OverwriteExistingFile")
+    ev0 = Ev(repo)
+    members = {m.name: m for m in ev0.iterate(ClassRef(pol), None)}
+    LANG = [(frozenset("abcdefghijklmnopqrstuvwxyzABCDEFGHIJKLMNOPQRSTUVWXYZ0123456789_-./"), 1, 4096)]
+    for rel, cn in writers:
+        cls = repo.cls(rel, cn)
+        for pm in public:
+            owner, fn = repo.find_method(cls, pm)
+            if fn is None:
+                raise AnalysisError("%s.%s missing" % (cn, pm))
+            qn = "%s.%s" % (cn, pm)
+            for given in (True, False):
+                for exists in (True, False):
+                    for pname, reply in (("SKIP", None), ("ALWAYS", None), ("ASK_USER_INPUT", "y"), ("ASK_USER_INPUT", "n")):
+                        name = Str([("sym", Sym("given_file_name", lang=LANG))])
+                        sid = Str([("sym", Sym("scenario_id", lang=LANG))])
+                        written, asked = [], []
+
+                        def path_model(a, k, asked=asked, exists=exists):
+                            p_ = a[0] if a else None
+                            probe = PyFunc(lambda a2, k2: (asked.append(p_), exists)[1], "exists")
+                            return Obj(None, {"is_file": probe, "exists": probe}, closed=True, label="Path(%s)" % show(p_))
+
+                        ev = Ev(repo)
+                        ev.pure_modules = {"np", "numpy", "math", "logging", "warnings", "commonroad_pb2"}
+                        ev.model_calls["pathlib.Path"] = path_model
+                        ev.model_calls["Path"] = path_model
+                        for nm in ("os.path.isfile", "os.path.exists", "path.isfile", "path.exists"):
+                            ev.model_calls[nm] = lambda a, k, asked=asked, exists=exists: (asked.append(a[0] if a else None), exists)[1]
+                        ev.input_reply = Str.lit(reply) if reply is not None else None
+                        tree = lambda a, k, written=written: Obj(None, {"write": PyFunc(lambda a2, k2: (written.append(a2[0] if a2 else k2.get("file")), NONE)[1], "write")}, closed=True, label="element tree")
+                        for nm in ("etree.ElementTree", "lxml.etree.ElementTree", "ElementTree"):
+                            ev.model_calls[nm] = tree
+                        ev.model_calls["open"] = lambda a, k, written=written: (written.append(a[0]), Lenient("file"))[1]
+                        for helper in ("_write_header", "_add_all_objects_from_scenario", "_add_all_planning_problems_from_planning_problem_set", "_dump", "check_validity_of_commonroad_file"):
+                            ev.stubs["%s.%s" % (cn, helper)] = lambda a: NONE
+                        ev.stubs["%s._serialize_write_msg" % cn] = lambda a, written=written: (written.append(a.get("filename")), NONE)[1]
+                        suffix = ev.call_fn(ev.bind(repo.find_method(cls, "_get_suffix")[1], cls, Obj(cls, {})), [], {}, fn) if repo.find_method(cls, "_get_suffix")[1] is not None else Str.lit("")
+                        me = Obj(cls, {"scenario": Obj(None, {"scenario_id": Obj(None, {"__str__": sid}, closed=True)}, closed=True), "planning_problem_set": Obj(None, {}, closed=True), "_decimal_precision": 4, "_root_node": NONE, "_commonroad_msg": NONE}, label="writer")
+                        label = "%s, file %s, policy %s%s" % ("file name given" if given else "default file name", "exists" if exists else "does not exist", pname, "" if reply is None else " (user answers %r)" % reply)
+                        bad = None
+                        try:
+                            ev.call_fn(ev.bind(fn, owner, me), [name if given else NONE, members[pname]], {}, fn)
+                            skip = exists and (pname == "SKIP" or reply == "n")
+                            eff = [name] if given else [sid, sid + suffix if isinstance(suffix, Str) else sid]
+                            if skip and written:
+                                bad = "writes %s although the existing file must be skipped" % [show(x) for x in written]
+                            elif not skip and len(written) != 1:
+                                bad = "writes %d files" % len(written)
+                            elif not skip and not any(same(written[0], e_) for e_ in eff):
+                                bad = "writes %s, the effective file name is %s" % (show(written[0]), show(eff[-1]))
+                            elif not any(any(same(x, e_) for e_ in eff) for x in asked if x is not None):
+                                bad = "existence is tested on %s, not on the file that will be written" % [show(x) for x in asked]
+                        except _Raise as x:
+                            bad = "raises %s" % x.what
+                        except Undecided as x:
+                            raise AnalysisError("%s [%s]: %s" % (qn, label, x))
+                        res.check("W3-SKIP", "%s [%s]" % (qn, label), bad is None, cls.mod, fn, "%s [%s]: %s" % (qn, label, bad), "an existing file is overwritten although the policy (or the user) said skip, or a file that may be written is not written, or another path is written / tested", qualname=qn)
+
+
 def run(repo, res, tier):
     res.rule("W1-NO-ACCUMULATION", "accumulated writer fields are re-initialised before the first mutation in every public write method", 4)
     res.rule("W2-NO-AMBIENT", "shared module-level cells read while writing are first assigned from the writer's own state", 2)
-    res.rule("W3-SKIP", "file sinks are dominated by the skip-return of the overwrite policy", 5)
+    res.rule("W3-SKIP", "a file is written exactly when the overwrite policy does not say skip for an existing file, under the effective name (evaluated)", 60)
     res.rule("W4-CLOCK", "no ambient read on the write path other than the date stamp", 1)
     handle_path_rule(repo, res)
 
@@ -363,6 +430,12 @@ def run(repo, res, tier):
         raise AnalysisError("file_writer_interface.precision is no longer a module-level cell (cells found: %s)" % sorted(CELLS))
 
     writers = [(WX, "XMLFileWriter"), (WP, "ProtobufFileWriter")]
+    # what a writer is constructed from: the parameters of FileWriter.__init__ (stored under their own / private names)
+    fw_init = repo.cls(WI, "FileWriter").methods["__init__"]
+    INPUTS = {a_.arg for a_ in fw_init.args.args[1:]} - {"decimal_precision"}
+    if not {"scenario", "planning_problem_set"} <= INPUTS:
+        raise AnalysisError("FileWriter.__init__ no longer takes scenario / planning_problem_set")
+    res.rule("W6-INPUTS", "public write methods do not re-assign the writer's inputs", 4)
     for rel, cn in writers:
         cls = repo.cls(rel, cn)
         mod = cls.mod
@@ -419,35 +492,29 @@ def run(repo, res, tier):
             for text, node, where in clocks:
                 ok = _is_date_stamp(mod, node)
                 res.check("W4-CLOCK", "%s: ambient read %s in %s is the date stamp" % (qn, text, where), ok, mod, node, "%s: %s in %s" % (qn, text, where), "the output depends on ambient state other than the documented date stamp", qualname=qn)
-            # ---------------- W3: the statement of the public method that (through helpers) reaches a file sink is
-            # dominated by the skip-return of the overwrite policy
-            top = fn.body
-            sink_sites = []
-            for st in top:
-                for n in ast.walk(st):
-                    if isinstance(n, ast.Call):
-                        fake = ast.FunctionDef(name="_", args=fn.args, body=[ast.Expr(value=n)], decorator_list=[], lineno=getattr(n, "lineno", 0))
-                        sub = trace(repo, cls, mod, fake)
-                        direct = [e for e in sub if e.kind == "SINK" and e.node is n]
-                        via = [e for e in sub if e.kind == "SINK" and e.fn != "_"]
-                        if direct or (via and isinstance(n.func, ast.Attribute) and isinstance(n.func.value, ast.Name) and n.func.value.id in ("self", "cls")):
-                            sink_sites.append(n)
-            if not sink_sites:
-                raise AnalysisError("%s: no file sink found" % qn)
-            for s_ in sink_sites:
-                guards = [(norm(t), pol) for t, pol in dominating_guards(mod, s_, stop=fn)]
-                # order by position in the body, not by line: inlined statements keep the lines of where they were written
-                at = [i for i, st in enumerate(top) if any(n is s_ for n in ast.walk(st))][0]
-                via_helper = (("filename", True) in guards or ("not filename", False) in guards) and any(isinstance(st, ast.Assign) and norm(st.value).startswith("self._handle_file_path(") and norm(st.targets[0]) == "filename" for st in top[:at])
-                inline = False
-                for st in top[:at]:
-                    if isinstance(st, ast.If) and ("is_file()" in norm(st.test) or "exists(" in norm(st.test)):
-                        for r in ast.walk(st):
-                            if isinstance(r, ast.Return) and _says_skip([(t, pol) for t, pol in dominating_guards(mod, r, stop=fn)]):
-                                inline = True
-                res.check("W3-SKIP", "%s: sink %s dominated by the skip-return" % (qn, norm(s_.func)), via_helper or inline, mod, s_, "%s: %s" % (qn, norm(s_)[:80]), "the file is written although the overwrite policy said skip", qualname=qn)
-                if inline and not via_helper:
-                    _policy(res, mod, fn, qn)
+            # ---------------- W6: a public write method does not re-assign what the writer was constructed from
+            # (scenario, planning problems, meta data): a later write of the same writer would differ from the first
+            region = [fn]
+            seen_r = {id(fn)}
+            k_ = 0
+            while k_ < len(region):
+                for c_ in walk_no_nested(region[k_]):
+                    if isinstance(c_, ast.Call) and isinstance(c_.func, ast.Attribute) and isinstance(c_.func.value, ast.Name) and c_.func.value.id in ("self", "cls"):
+                        h_ = repo.find_method(cls, c_.func.attr)[1]
+                        if h_ is not None and id(h_) not in seen_r:
+                            seen_r.add(id(h_))
+                            region.append(h_)
+                k_ += 1
+            clobbers = []
+            for f_ in region:
+                for n_ in walk_no_nested(f_):
+                    tg_ = n_.targets if isinstance(n_, ast.Assign) else [n_.target] if isinstance(n_, (ast.AnnAssign, ast.AugAssign)) else []
+                    for t_ in tg_:
+                        if isinstance(t_, ast.Attribute) and isinstance(t_.value, ast.Name) and t_.value.id == "self" and t_.attr.lstrip("_") in INPUTS:
+                            clobbers.append((n_, f_.name, t_.attr))
+            res.check("W6-INPUTS", "%s: the writer's inputs (%s) are not re-assigned while writing" % (qn, ", ".join(sorted(INPUTS))), not clobbers, mod, clobbers[0][0] if clobbers else fn, "%s: %s assigns self.%s" % (qn, clobbers[0][1] if clobbers else "", clobbers[0][2] if clobbers else ""), "a write call changes what the writer writes: the next call of the same writer gives another content than an identically constructed writer", qualname=qn)
+    # ---------------- W3 on the public write methods: decided by evaluation (file name x existence x policy x reply)
+    public_write_rule(repo, res, writers, PUBLIC)
     # the shared policy helper
     fw = repo.cls(WI, "FileWriter")
     _policy(res, imod, fw.methods["_handle_file_path"], "FileWriter._handle_file_path", returns_empty=True)
